@@ -306,7 +306,8 @@ fn complete_option(
                             comp.add_prefix(format!("-{leading_flags}{sep}"))
                         }),
                 );
-            } else {
+            } else if arg.to_value().is_ok() {
+                // (a cluster cut short by invalid UTF-8 cannot be extended by a flag)
                 completions.extend(
                     shorts_and_visible_aliases(cmd)
                         .into_iter()
